@@ -54,9 +54,15 @@ for t in ITY:
     def mulpre(i, W=W, sg=sg):
         x, m = i[0][0], i[0][1]; X = sx(x, W + 2) if sg else zx(x, W + 2); M = sx(m, W + 2) if sg else zx(m, W + 2)
         MAX = (1 << (W - 1)) - 1 if sg else (1 << W) - 1
-        return [m > 0 if sg else m != 0, X + M <= MAX] + ([X - M >= -(1 << (W - 1))] if sg else [])
+        # the mathematical results must be representable (not more): ceil = x + ((m - x mod m) mod m) <= MAX, floor = x - (x mod m) >= MIN, floor-mod in W+2 bits
+        if W > 32: return [m > 0 if sg else m != 0, X + M <= MAX] + ([X - M >= -(1 << (W - 1))] if sg else [])     # 64 bit: the 66-bit remainders of the exact domain are out of reach; x +- Multiple representable instead
+        MIN = -(1 << (W - 1)) if sg else 0
+        r = z3.SRem(X, M) if sg else z3.URem(X, M); fm = z3.If(r < 0, r + M, r) if sg else r
+        up = z3.If(fm == 0, fm, M - fm)
+        pos = [m > 0, X + up <= MAX, X - fm >= MIN] if sg else [m != 0, z3.ULE(X + up, z3.BitVecVal(MAX, W + 2))]
+        return pos
     add('mult_' + t, [(c, 2)], [('bool', 1), (c, 5)], 'o[0] = glm::isMultiple(a[0], a[1]); o2[0] = glm::nextMultiple(a[0], a[1]); o2[1] = glm::prevMultiple(a[0], a[1]); o2[2] = glm::ceilMultiple(a[0], a[1]); o2[3] = glm::floorMultiple(a[0], a[1]); o2[4] = glm::roundMultiple(a[0], a[1]);',
-        mulpre, 'Multiple > 0, x +- Multiple representable')
+        mulpre, 'Multiple > 0, the next / previous multiple representable (64-bit types: x +- Multiple representable)')
     add('findNSB_' + t, [(c, 1), ('int', 1)], [('int', 1)], 'o[0] = glm::findNSB(a[0], b[0]);', lambda i, W=W: [i[1][0] >= 1, i[1][0] <= W], '1 <= n <= %d' % W, unwind=9)
 add('carry', [('uint32_t', 2)], [('uint32_t', 6)], 'glm::uint c, b, m, l; o[0] = glm::uaddCarry(a[0], a[1], c); o[1] = c; o[2] = glm::usubBorrow(a[0], a[1], b); o[3] = b; glm::umulExtended(a[0], a[1], m, l); o[4] = m; o[5] = l;')
 add('imulext', [('int32_t', 2)], [('int32_t', 2)], 'int m, l; glm::imulExtended(a[0], a[1], m, l); o[0] = m; o[1] = l;')
@@ -96,6 +102,9 @@ add('pk_small', [('float', 3)], [('uint8_t', 2)], 'glm::vec3 v = ldv<3,float>(a)
     lambda i: [z3.And(z3.Not(is_nan(x)), z3.fpGEQ(fpof(x), FPV(0.0)), z3.fpLEQ(fpof(x), FPV(65408.0))) for x in i[0]], 'components in [0, 65408] (shared-exponent range)')
 add('pk_int', [('int32_t', 4)], [('uint32_t', 2), ('uint64_t', 2)], 'glm::ivec4 v = ldv<4,int32_t>(a); o[0] = glm::packI3x10_1x2(v); o[1] = glm::packU3x10_1x2(glm::uvec4(v)); o2[0] = glm::packInt2x32(glm::i32vec2(v)); o2[1] = glm::packUint4x16(glm::u16vec4(v));')
 add('upk', [('uint32_t', 1), ('uint64_t', 1), ('uint16_t', 1), ('uint8_t', 1)], [('float', 4)] * 4, 'stv(o, glm::unpackUnorm4x8(a[0]) + glm::unpackSnorm4x8(a[0]) + glm::unpackUnorm3x10_1x2(a[0]) + glm::unpackSnorm3x10_1x2(a[0])); stv(o2, glm::unpackUnorm4x16(b[0]) + glm::unpackSnorm4x16(b[0]) + glm::unpackHalf4x16(b[0])); stv(o3, glm::vec4(glm::unpackF2x11_1x10(a[0]), glm::unpackHalf1x16(c[0])) + glm::vec4(glm::unpackF3x9_E1x5(a[0]), 0.f)); stv(o4, glm::unpackUnorm4x4(c[0]) + glm::unpackUnorm3x5_1x1(c[0]) + glm::vec4(glm::unpackUnorm2x4(d[0]), glm::unpackUnorm1x8(d[0]), glm::unpackSnorm1x8(d[0])));', unwind=12)
+for L in (1, 2, 3, 4):      # the length-templated gtc packers (memcpy-based for half)
+    add('pk_tmpl%d' % L, [('float', L)], [('uint16_t', L), ('uint8_t', L), ('int16_t', L), ('float', L)],
+        'stv(o, glm::packHalf(ldv<%d,float>(a))); stv(o2, glm::packUnorm<glm::uint8>(ldv<%d,float>(a))); stv(o3, glm::packSnorm<glm::int16>(ldv<%d,float>(a))); stv(o4, glm::unpackHalf(glm::packHalf(ldv<%d,float>(a))));' % (L, L, L, L), NN(0), 'non-NaN components', unwind=12)
 add('half', [('float', 4)], [('uint16_t', 1), ('uint32_t', 1), ('uint64_t', 1)], 'o[0] = glm::packHalf1x16(a[0]); o2[0] = glm::packHalf2x16(ldv<2,float>(a)); o3[0] = glm::packHalf4x16(ldv<4,float>(a));', unwind=12)
 # indexing: operator[] with a symbolic in-range index on vec / mat / quat
 for L in (2, 3, 4):
@@ -135,14 +144,51 @@ def _simd_unit(isa, flag):
     return u, TS
 SIMD = {isa: _simd_unit(isa, fl) for isa, fl in (('sse2', '-msse2'), ('avx2', '-mavx2'))}
 def simd_isas(tier): return ['sse2'] if tier == 'quick' else ['sse2', 'avx2']
-def units(tier): return [(U, '-O1', True)] + [(SIMD[i][0], '-O1', True) for i in simd_isas(tier)]
+def units(tier): return [(U, '-O1', True)] + [(SIMD[i][0], '-O1', True) for i in simd_isas(tier)] + [(UM, '-O0', False)]
 NATIVE = False
 
 def job(names):
     def run(S):
         for n in names:
             pre, btxt, known, unw = T[n]
-            S.check_fn(U, n, None, pre, ubsan=True, unwind=unw, known=known, bounds=btxt + '; UBSan-trap IR', timeout=S.cap(60, 240), validate=0, solver='portfolio' if n.startswith(('mult_', 'ivecops', 'gtxint')) else 'z3')
+            S.check_fn(U, n, None, pre, ubsan=True, unwind=unw, known=known, bounds=btxt + '; UBSan-trap IR', timeout=S.cap(240, 480) if n.startswith('mult_') else S.cap(60, 240), validate=0, solver='portfolio' if n.startswith(('mult_', 'ivecops', 'gtxint')) else 'z3')
+    return run
+# ---- memory-safety slice: the memcpy / union / pointer based functions in UNOPTIMISED IR (-O0 keeps every memcpy with its byte count; at -O1 clang folds an
+# out-of-bounds copy between two stack objects away).  An out-of-bounds or uninitialised access seen by the executor is confirmed natively under AddressSanitizer.
+from props.c17 import run_check as _run_check, resolve_oob as _resolve_oob
+UM = Unit('c20_mem', includes=INC + ['glm/gtc/type_ptr.hpp'])
+for L in (1, 2, 3, 4):
+    UM.add('m_half%d' % L, [('float', L)], [('uint16_t', L), ('float', L)], 'stv(o, glm::packHalf(ldv<%d,float>(a))); stv(o2, glm::unpackHalf(glm::packHalf(ldv<%d,float>(a))));' % (L, L))
+UM.add('m_halfx', [('float', 4)], [('uint16_t', 1), ('uint32_t', 1), ('uint64_t', 1), ('float', 4)], 'o[0] = glm::packHalf1x16(a[0]); o2[0] = glm::packHalf2x16(ldv<2,float>(a)); o3[0] = glm::packHalf4x16(ldv<4,float>(a)); stv(o4, glm::unpackHalf4x16(glm::packHalf4x16(ldv<4,float>(a))));')
+UM.add('m_norm', [('float', 4)], [('uint32_t', 4), ('uint64_t', 2), ('uint16_t', 4), ('uint8_t', 3)], 'glm::vec4 v = ldv<4,float>(a); o[0] = glm::packUnorm4x8(v); o[1] = glm::packSnorm4x8(v); o[2] = glm::packUnorm2x16(glm::vec2(v)); o[3] = glm::packSnorm2x16(glm::vec2(v)); o2[0] = glm::packUnorm4x16(v); o2[1] = glm::packSnorm4x16(v); o3[0] = glm::packUnorm2x8(glm::vec2(v)); o3[1] = glm::packSnorm2x8(glm::vec2(v)); o3[2] = glm::packUnorm1x5_1x6_1x5(glm::vec3(v)); o3[3] = glm::packUnorm4x4(v); o4[0] = glm::packUnorm2x4(glm::vec2(v)); o4[1] = glm::packUnorm2x3_1x2(glm::vec3(v)); o4[2] = glm::packUnorm1x8(v.x);')
+UM.add('m_small', [('float', 4)], [('uint32_t', 5)], 'glm::vec4 v = ldv<4,float>(a); o[0] = glm::packUnorm3x10_1x2(v); o[1] = glm::packSnorm3x10_1x2(v); o[2] = glm::packF2x11_1x10(glm::vec3(v)); o[3] = glm::packF3x9_E1x5(glm::vec3(v)); o[4] = glm::packI3x10_1x2(glm::ivec4(1, 2, 3, 1));')
+UM.add('m_unpack', [('uint32_t', 1), ('uint64_t', 1), ('uint16_t', 1)], [('float', 4)] * 4, 'stv(o, glm::unpackUnorm4x8(a[0]) + glm::unpackSnorm4x8(a[0]) + glm::unpackUnorm3x10_1x2(a[0]) + glm::unpackSnorm3x10_1x2(a[0])); stv(o2, glm::unpackUnorm4x16(b[0]) + glm::unpackSnorm4x16(b[0]) + glm::unpackHalf4x16(b[0])); stv(o3, glm::vec4(glm::unpackF2x11_1x10(a[0]), glm::unpackHalf1x16(c[0]))); stv(o4, glm::unpackUnorm4x4(c[0]) + glm::unpackUnorm3x5_1x1(c[0]));')
+UM.add('m_int', [('int32_t', 4), ('uint64_t', 1), ('double', 1)], [('uint64_t', 3), ('int32_t', 2), ('uint32_t', 2), ('double', 1)], 'glm::ivec4 v = ldv<4,int32_t>(a); o[0] = glm::packInt2x32(glm::i32vec2(v)); o[1] = glm::packUint4x16(glm::u16vec4(v)); o[2] = glm::packInt4x16(glm::i16vec4(v)); stv(o2, glm::unpackInt2x32(b[0])); stv(o3, glm::unpackDouble2x32(c[0])); o4[0] = glm::packDouble2x32(glm::unpackDouble2x32(c[0]));')
+UM.add('m_bits', [('float', 4), ('int32_t', 4)], [('int32_t', 4), ('uint32_t', 4), ('float', 4), ('float', 4)], 'stv(o, glm::floatBitsToInt(ldv<4,float>(a))); stv(o2, glm::floatBitsToUint(ldv<4,float>(a))); stv(o3, glm::intBitsToFloat(ldv<4,int32_t>(b))); stv(o4, glm::uintBitsToFloat(glm::uvec4(ldv<4,int32_t>(b))));')
+for L in (2, 3, 4):
+    UM.add('m_makev%d' % L, [('float', L)], [('float', L)], 'glm::vec<%d,float> v = glm::make_vec%d(a); float const* p = glm::value_ptr(v); for (int k = 0; k < %d; ++k) o[k] = p[k];' % (L, L, L))
+for (C, R) in ((2, 2), (2, 3), (3, 3), (4, 3), (3, 4), (4, 4)):
+    UM.add('m_makem%d%d' % (C, R), [('float', C * R)], [('float', C * R)], 'glm::mat<%d,%d,float> m = glm::make_mat%dx%d(a); float const* p = glm::value_ptr(m); for (int k = 0; k < %d; ++k) o[k] = p[k];' % (C, R, C, R, C * R))
+UM.add('m_makeq', [('float', 4)], [('float', 4)], 'glm::quat q = glm::make_quat(a); float const* p = glm::value_ptr(q); for (int k = 0; k < 4; ++k) o[k] = p[k];')
+def job_mem(names):
+    def run(S):
+        for n in names:
+            n_inc = len(S.inconclusive); n_rec = len(S.records)
+            res = S.check_fn(UM, n, None, None, side=False, opt='-O0', validate=0, unwind=24, witness=False, bounds='all argument values; unoptimised IR (every memcpy / load / store with its static size); only out-of-bounds accesses are claimed here')
+            if res is None:
+                r = S.records[-1] if len(S.records) > n_rec else None
+                if r is not None and r.get('status') == 'not-encoded' and 'oob' in str(r.get('note', '')):      # concrete out-of-bounds access: confirm natively under AddressSanitizer
+                    del S.inconclusive[n_inc:]; r['mandatory'] = False
+                    if not hasattr(S, 'oob_pending'): S.oob_pending = []
+                    S.oob_pending.append((UM, n, r))
+                continue
+            conds = [c for k, c, d in res.obligations if k == 'oob']
+            name = 'c20_mem.%s.in-bounds' % n
+            if not conds:
+                S.rec(name=name, kind='oob', functions=[n], bounds='unoptimised IR', solver='executor: every access at a concrete in-bounds offset', result='unsat', time_s=0.0, status='discharged', mandatory=True)
+            else:
+                S.prove(name, z3.Not(z3.Or(*conds)) if len(conds) > 1 else z3.Not(conds[0]), input_wellformed(UM.fns[n], res.ins) + res.axioms, timeout=S.cap(60, 200), kind='oob', functions=[n], bounds='unoptimised IR; symbolic offsets')
+        _resolve_oob(S)
     return run
 def job_simd(isa, names):
     u, TS = SIMD[isa]
@@ -152,7 +198,8 @@ def job_simd(isa, names):
             S.check_fn(u, n, None, pre, ubsan=True, unwind=unw, known=known, bounds=btxt + '; UBSan-trap IR, GLM_FORCE_INTRINSICS ' + isa, timeout=S.cap(60, 240), validate=0)
     return run
 def jobs(tier):
-    return jobs_pure(tier) + [('simd_%s_%d' % (isa, k), job_simd(isa, sorted(SIMD[isa][1])[k::3])) for isa in simd_isas(tier) for k in range(3)]
+    mem = sorted(UM.fns)
+    return jobs_pure(tier) + [('mem_%d' % k, job_mem(mem[k::4])) for k in range(4)] + [('simd_%s_%d' % (isa, k), job_simd(isa, sorted(SIMD[isa][1])[k::3])) for isa in simd_isas(tier) for k in range(3)]
 def jobs_pure(tier):
     names = sorted(U.fns)
     if tier == 'quick': names = [n for n in names if not re.search(r'_(i8|u16|i16)$', n)]
